@@ -598,6 +598,14 @@ class SSETransport(Transport):
                             await self._route_incoming_message(error_response)
                         except asyncio.CancelledError:
                             logger.debug(f"Request {message_id} was cancelled")
+                            # Only the cancellation of the pending *future* (by
+                            # _cleanup) ends here. When this task itself is being
+                            # cancelled as well - both can arrive as one
+                            # CancelledError - it has to stop, or leaving the
+                            # context waits for it for ever
+                            current = asyncio.current_task()
+                            if current is not None and current.cancelling():
+                                raise
                     else:
                         # Unexpected status
                         logger.warning(
